@@ -152,6 +152,12 @@ pub fn open_tag(e: &Elem, sp: &Spell) -> String {
         attrs.push("unwrap-block".into());
     }
     attrs.push(format!("c={q}#{}#{q}", e.id));
+    // an opaque attribute whose value contains the other quote character and tag keywords
+    match (e.style >> 10) & 7 {
+        6 => attrs.push("d=\"it's to skip name unwrap-block\"".to_string()),
+        7 => attrs.push("d='say \"skip\" to=1 /tl unwrap-block'".to_string()),
+        _ => {}
+    }
     // order variation: rotate by style
     let rot = (e.style >> 1) % attrs.len();
     attrs.rotate_left(rot);
@@ -563,7 +569,7 @@ impl<'a, 't> Gen<'a, 't> {
             _ => (Cond::RmNoName(self.t.below(3)), false),
         };
         let unwrap = unwrap_allowed && self.t.chance(self.o.unwrap_pct);
-        let style = if self.o.tag_styles { self.t.below(1024) } else { 0 };
+        let style = if self.o.tag_styles { self.t.below(8192) } else { 0 };
         Elem { id, cond, skip, unwrap, style }
     }
     fn inline_node(&mut self, level: usize) -> Node {
